@@ -7,6 +7,13 @@
 (*   ok (bytes, accessors and - for new frames - the zeroed remainder of    *)
 (*       the buffer equal what the driver's own layout of the inputs says). *)
 (* Event: {"op":..,"s":S,"c":C,"err":B,"frames":[...]}                      *)
+(* op "read": the frame of slot S was born in the LINK READER of a real     *)
+(* link (peering.LinkBase, both routers running the real set-up): the       *)
+(* reader took a pooled buffer of the shared builder by the length on the   *)
+(* wire, parsed in place and handed the frame to the router's frame         *)
+(* handler; "k" is the identity of that link.  On histories with reader-    *)
+(* born frames `ok` also says that every live frame can be had with the     *)
+(* margins the link writer asks for.                                        *)
 (***************************************************************************)
 EXTENDS Integers, Sequences, FiniteSets, TLC, Json
 
@@ -43,11 +50,13 @@ CloneEqual == op.op = "clone" =>
                 /\ cur[op.c].digest = prev[op.s].digest
                 /\ cur[op.c].link = prev[op.s].link
                 /\ cur[op.s].digest = prev[op.s].digest
-NoRemnant == op.op \in {"new", "parse", "reply"} /\ ~op.err =>
-                cur[op.s].live /\ cur[op.s].link = 0
+NoRemnant == /\ op.op \in {"new", "parse", "reply"} /\ ~op.err =>
+                   cur[op.s].live /\ cur[op.s].link = 0
+             /\ op.op = "read" /\ ~op.err =>
+                   cur[op.s].live /\ cur[op.s].link = op.k
 ContentOK == \A s \in Live : cur[s].ok
 (* A failed operation changes nothing.                                       *)
-FailedIsNoop == (op.op \in {"setapx", "reply", "new", "parse"} /\ op.err /\ op.s \in DOMAIN prev /\ prev[op.s].live) =>
+FailedIsNoop == (op.op \in {"setapx", "reply", "new", "parse", "read"} /\ op.err /\ op.s \in DOMAIN prev /\ prev[op.s].live) =>
                    cur[op.s].digest = prev[op.s].digest
 NoPanic == op.op # "init" => ~op.panic
 
